@@ -2,7 +2,7 @@
 """
 import ast
 
-from .core import (AnalysisError, dotted, norm, walk_local, const_int,
+from .core import (ftext, cnorm, closure_text, AnalysisError, dotted, norm, walk_local, const_int,
                    stmts_of, calls_in, call_name, kwarg, enclosing_stmt_map,
                    block_always_raises, raised_names, PKG, canon_exc)
 from .dataflow import (local_defs, names_in, closure_names, holds,
@@ -101,6 +101,10 @@ def accessor_io_errors(repo, col):
             for call, effects, kind in _io_sites(fn):
                 n += 1
                 ok, how = ff.try_discharge(call, effects, {DAE})
+                if ok is None:
+                    col.add(rule + ".convert", fn, norm(call)[:70], True, how,
+                            node=call, undecided=True)
+                    continue
                 if not ok and fn.key in helper_callsites:
                     # helper: every call site must be inside a converting try
                     oks = []
@@ -259,9 +263,11 @@ def http_content_after_status(repo, col):
                     gn = cfg.node_of(g)
                     if gn is None or isinstance(g, ast.Assert):
                         continue
+                    from .dataflow import single_defs, expand
+                    sd = single_defs(fn.node)
                     for a in atoms:
                         if a.op == "==" and {norm(a.left), norm(a.right)} >= \
-                                {length} and any("len(" in norm(x)
+                                {length} and any("len(" in norm(expand(x, sd))
                                                  for x in (a.left, a.right)):
                             if cfg.every_path_passes(cfg.entry, rn, [gn]):
                                 okl = True
@@ -275,7 +281,7 @@ def http_content_after_status(repo, col):
                         "data", node=r)
         if ranged:
             # the Range header covers [offset, offset + length - 1]
-            txt = norm(fn.node)
+            txt = ftext(fn)
             okr = "f'bytes={offset}-{offset + length - 1}'" in txt
             col.add(rule + ".range-header", fn, "bytes={offset}-{offset+length-1}",
                     okr, "" if okr else "Range header is not the inclusive "
@@ -296,7 +302,7 @@ def http_content_after_status(repo, col):
                     "index length is subtracted twice", nontrivial=False)
     # file_exists probes
     fe = repo.func("sharded_http_accessor", "HttpShard.file_exists")
-    txt = norm(fe.node)
+    txt = ftext(fe)
     ok = "resp.raise_for_status()" in txt and "status_code" in txt
     col.add(rule + ".probe", fe, "non-200/404 statuses raise", ok,
             "" if ok else "HEAD probe treats an error status as 'absent'")
@@ -389,7 +395,7 @@ def overwrite_and_gzip(repo, col):
     rule = "E-SIB.store"
     fa = repo.cls("file_accessor", "FileAccessor")
     for mname in ("store_file", "store_chunk"):
-        fn = repo.func("file_accessor", "FileAccessor." + mname)
+        fn = repo.func("file_accessor", "FileAccessor." + mname, inline=True)
         defs = local_defs(fn.node)
         opens = []
         for c in calls_in(fn.node):
@@ -423,13 +429,14 @@ def overwrite_and_gzip(repo, col):
                 mode = c.args[0] if c.args else kwarg(c, "mode")
             okm = False
             if mode is not None and not isinstance(mode, ast.Name):
-                mt = norm(mode)
+                mt = cnorm(fn.module, mode)
                 okm = "overwrite" in mt and "'xb'" in mt
             if isinstance(mode, ast.Name):
                 clos = closure_names(fn.node, [mode.id], defs)
                 okm = "overwrite" in clos
                 for d in defs.get(mode.id, []):
-                    if d.value is not None and "'xb'" in norm(d.value) and \
+                    if d.value is not None and "'xb'" in cnorm(
+                            fn.module, d.value) and \
                             "overwrite" in norm(d.value):
                         okm = True
             col.add(rule + ".overwrite", fn, norm(c)[:60], okm,
@@ -440,7 +447,7 @@ def overwrite_and_gzip(repo, col):
             # gz pairing
             path_arg = c.args[0] if nm in ("gzip.open", "open") and c.args \
                 else (c.func.value if isinstance(c.func, ast.Attribute) else None)
-            ptxt = norm(path_arg) if path_arg is not None else ""
+            ptxt = cnorm(fn.module, path_arg) if path_arg is not None else ""
             appended = ".name + '.gz'" in ptxt or "+ '.gz'" in ptxt
             replaced = "with_suffix('.gz')" in ptxt
             # helper function building the gz name
@@ -448,7 +455,7 @@ def overwrite_and_gzip(repo, col):
                 if isinstance(cc, ast.Call):
                     h = fn.module.functions.get(call_name(cc) or "")
                     if h is not None:
-                        ht = norm(h.node)
+                        ht = ftext(h)
                         appended = appended or "+ '.gz'" in ht
                         replaced = replaced or "with_suffix('.gz')" in ht
             opaque = False
@@ -473,7 +480,7 @@ def overwrite_and_gzip(repo, col):
                 col.add(rule + ".gz-name", fn, ptxt[:60], ok,
                         "plain bytes go to <name>" if ok else
                         "uncompressed bytes are written to a .gz name", node=c)
-        txt = norm(fn.node)
+        txt = ftext(fn)
         okn = "self.gzip and mime_type not in NO_COMPRESS_MIME_TYPES" in txt
         col.add(rule + ".mime", fn, "gzip unless MIME type is exempt", okn,
                 "" if okn else "store method does not consult "
@@ -491,8 +498,8 @@ def overwrite_and_gzip(repo, col):
                     if isinstance(cc, ast.Call):
                         h = fn.module.functions.get(call_name(cc) or "")
                         if h is not None:
-                            ok = "+ '.gz'" in norm(h.node) and \
-                                "with_suffix" not in norm(h.node)
+                            ok = "+ '.gz'" in ftext(h) and \
+                                "with_suffix" not in ftext(h)
                 col.add(rule + ".gz-name", fn, ptxt[:60], ok,
                         "" if ok else "gzip reader does not open <name>.gz",
                         node=c)
@@ -524,7 +531,7 @@ def overwrite_and_gzip(repo, col):
             "default")
     # K4: exclusive create protects only the name that is opened, while
     # fetch_file treats <name> and <name>.gz as the same file
-    txt = norm(sf.node)
+    txt = ftext(sf)
     both = "self.file_exists(" in txt or (".is_file()" in txt)
     col.add(rule + ".exclusive-both-names", sf,
             "refusal covers <name> and <name>.gz", both,
@@ -592,10 +599,10 @@ def data_type_tables(repo, col):
                 t = _const_tuple(fn.module, n.comparators[0])
                 if t and all(isinstance(x, str) for x in t):
                     sets.append((fn, set(t)))
-    okc = len(sets) >= 2 and all(s == {"uint32", "uint64"} for _, s in sets)
+    okc = len(sets) >= 1 and all(s == {"uint32", "uint64"} for _, s in sets)
     col.add(rule, cs, "compressed_segmentation types {uint32, uint64}", okc,
             "" if okc else "compressed_segmentation type sets disagree: %s"
-            % [sorted(s) for _, s in sets])
+            % [sorted(s) for _, s in sets], undecided=not sets)
     m = repo.module("_compressed_segmentation")
     t = norm(m.constants.get("COMPRESSED_SEGMENTATION_DATA_TYPES"))
     okd = "np.uint32" in t and "np.uint64" in t and t.count("newbyteorder('<')") == 2
@@ -603,13 +610,17 @@ def data_type_tables(repo, col):
             "little-endian uint32 / uint64", okd, "" if okd else
             "codec dtype table is not (<u4, <u8)")
     # encoder switch vs CLI choices
+    from .core import helper_closure
     ge = repo.func("chunk_encoding", "get_encoder")
     branches = set()
-    for n in walk_local(ge.node):
-        if isinstance(n, ast.Compare) and norm(n.left) == "encoding" and \
-                isinstance(n.ops[0], ast.Eq) and \
-                isinstance(n.comparators[0], ast.Constant):
-            branches.add(n.comparators[0].value)
+    closure = helper_closure(ge)
+    for h in closure:
+        for n in walk_local(h.node):
+            if isinstance(n, ast.Compare) and "encoding" in norm(n.left) and \
+                    isinstance(n.ops[0], ast.Eq) and \
+                    isinstance(n.comparators[0], ast.Constant) and \
+                    isinstance(n.comparators[0].value, str):
+                branches.add(n.comparators[0].value)
     choices = set()
     for mod in repo.modules.values():
         if ".scripts." not in mod.name:
@@ -630,17 +641,18 @@ def data_type_tables(repo, col):
             else "--encoding offers %s which get_encoder does not handle"
             % sorted(choices - branches))
     oke = any(isinstance(s, ast.Raise) and "InvalidInfoError" in norm(s)
-              and "Invalid encoding" in norm(s) for s in stmts_of(ge.node))
+              and "Invalid encoding" in norm(s)
+              for h in closure for s in stmts_of(h.node))
     col.add(rule, ge, "unknown encoding raises InvalidInfoError", oke,
             "" if oke else "unknown encodings fall through")
     # raw codec: same dtype and shape order on both sides
     rd = repo.func("chunk_encoding", "RawChunkEncoder.decode")
-    okr = "np.frombuffer(buf, dtype=self.dtype)" in norm(rd.node)
+    okr = "np.frombuffer(buf, dtype=self.dtype)" in ftext(rd)
     col.add(rule, rd, "frombuffer(dtype=self.dtype)", okr, "" if okr else
             "raw decoder does not read the little-endian stored dtype",
             undecided=not okr)
     ini = repo.func("chunk_encoding", "ChunkEncoder.__init__")
-    okl = "np.dtype(data_type).newbyteorder('<')" in norm(ini.node)
+    okl = "np.dtype(data_type).newbyteorder('<')" in ftext(ini)
     col.add(rule, ini, "self.dtype little-endian", okl, "" if okl else
             "codec dtype is not forced to little-endian")
 
@@ -655,7 +667,16 @@ def dispatch_agreement(repo, col):
     # flatten if/elif chain
     arms = []
     for st in branches:
-        arms.append((norm(st.test), st.body))
+        body = st.body
+        # 'extract function': the arm only delegates to a module helper
+        real = [x for x in body if not isinstance(x, (ast.Import,
+                                                      ast.ImportFrom))]
+        if len(real) == 1 and isinstance(real[0], ast.Return) and \
+                isinstance(real[0].value, ast.Call):
+            h = fn.module.functions.get(call_name(real[0].value) or "")
+            if h is not None and h is not fn:
+                body = h.node.body
+        arms.append((norm(st.test), body))
     if len(arms) < 2:
         raise AnalysisError("anchor vanished: scheme dispatch in %s" % fn.key)
     preds = []
@@ -670,8 +691,8 @@ def dispatch_agreement(repo, col):
         if not ok:
             for c in calls:
                 h = fn.module.functions.get(call_name(c) or "")
-                if h is not None and "info_is_sharded" in norm(h.node) and \
-                        "fetch_file('info')" in norm(h.node):
+                if h is not None and "info_is_sharded" in ftext(h) and \
+                        "fetch_file('info')" in ftext(h):
                     helper = h.qualname
                     pred = ["via " + helper]
                     ok = True
@@ -692,30 +713,45 @@ def dispatch_agreement(repo, col):
                     isinstance(x, ast.Return) and "Sharded" in norm(x.value)
                     for x in ast.walk(s) if isinstance(x, ast.Return)
                     and x.value is not None):
-                okg = norm(s.test) == "is_sharding"
+                tt = norm(s.test)
+                okg = tt == "is_sharding"
+                und = False
+                if not okg:
+                    # same decision written as one expression
+                    pos = [o for o in (s.test.values if isinstance(
+                        s.test, ast.BoolOp) and isinstance(s.test.op, ast.Or)
+                        else [s.test])]
+                    names = [p.replace("via ", "") for p in pred]
+                    if any(isinstance(o, ast.Call) and (
+                            "info_is_sharded" in norm(o.func) or
+                            (call_name(o) or "") in names) for o in pos):
+                        okg = True
+                    elif not isinstance(s.test, ast.UnaryOp):
+                        und = True
                 col.add(rule, fn, "%s: sharded accessor under `is_sharding`"
-                        % test[:40], okg, "" if okg else "sharded accessor is "
-                        "returned under `%s`" % norm(s.test))
+                        % test[:40], okg or und, "" if okg else "sharded "
+                        "accessor is returned under `%s`" % tt,
+                        undecided=und)
     if len(preds) >= 2:
         same = len({tuple(p[1]) for p in preds}) == 1
         col.add(rule, fn, "file and http branches share one predicate", same,
                 "" if same else "the two branches decide 'sharded' "
                 "differently: %s" % [p[1] for p in preds])
     isf = repo.func("sharded_base", "ShardedAccessorBase.info_is_sharded")
-    t = norm(isf.node)
+    t = ftext(isf)
     okp = "len(scales) > 0 and all((ShardedScaleBase.is_sharded(s) for s in scales))" in t
     col.add(rule, isf, "every scale declares sharding", okp, "" if okp else
             "info_is_sharded is not 'at least one scale and all scales "
             "sharded'", undecided=not okp)
     sc = repo.func("sharded_base", "ShardedScaleBase.is_sharded")
     oks = "scale['sharding']['@type'] == 'neuroglancer_uint64_sharded_v1'" \
-        in norm(sc.node)
+        in ftext(sc)
     col.add(rule, sc, "@type == neuroglancer_uint64_sharded_v1", oks,
             "" if oks else "sharding marker test changed", undecided=not oks)
     # URL pattern shared between HTTP and flat files
     ha = repo.func("http_accessor", "HttpAccessor.chunk_relative_url")
     okh = "_CHUNK_PATTERN_FLAT.format(xmin, xmax, ymin, ymax, zmin, zmax, key=key)" \
-        in norm(ha.node)
+        in ftext(ha)
     col.add(rule, ha, "HTTP chunk URL = flat file pattern", okh, "" if okh else
             "HTTP chunk URLs are not built from the shared flat pattern")
     acc = repo.module("accessor")
@@ -734,11 +770,11 @@ def dispatch_agreement(repo, col):
             "sub-directory chunk pattern changed")
     # base URL normalisation
     hi = repo.func("http_accessor", "HttpAccessor.__init__")
-    oku = "r.path if r.path[-1] == '/' else r.path + '/'" in norm(hi.node)
+    oku = "r.path if r.path[-1] == '/' else r.path + '/'" in ftext(hi)
     col.add(rule, hi, "base URL ends with exactly one slash", oku, "" if oku
             else "base URL normalisation changed", undecided=not oku)
     sp = repo.func("accessor", "_strip_precomputed")
-    okpr = "url.startswith('precomputed://')" in norm(sp.node)
+    okpr = "url.startswith('precomputed://')" in ftext(sp)
     col.add(rule, sp, "precomputed:// prefix stripped", okpr, "" if okpr else
             "precomputed:// URLs are no longer recognised",
             undecided=not okpr)
@@ -761,12 +797,54 @@ VALUE_PARAMS = {
 }
 
 
-def _stage_seq(fn):
+def _ordered_calls(stmts):
+    """Calls in execution-like source order: statement by statement (headers
+    before bodies), by position inside one simple statement."""
+    from .core import iter_child_stmts
     out = []
-    for c in sorted(calls_in(fn.node), key=lambda c: (c.lineno, c.col_offset)):
-        nm = (call_name(c) or "").split(".")[-1]
-        if nm in STAGES:
-            out.append((nm, c))
+    for st in stmts:
+        if isinstance(st, (ast.FunctionDef, ast.AsyncFunctionDef,
+                           ast.ClassDef)):
+            continue
+        kids = list(iter_child_stmts(st))
+        if not kids:
+            out += sorted(calls_in(st), key=lambda c: (c.lineno, c.col_offset))
+            continue
+        hdr = []
+        for field, value in ast.iter_fields(st):
+            if field in ("body", "orelse", "finalbody", "handlers", "cases"):
+                continue
+            for sub in (value if isinstance(value, list) else [value]):
+                if isinstance(sub, ast.AST):
+                    hdr += calls_in(sub)
+        out += sorted(hdr, key=lambda c: (c.lineno, c.col_offset))
+        out += _ordered_calls(kids)
+    return out
+
+
+def _stage_seq(fn, depth=2):
+    """[(stage name, call, foreign)]: stage calls of fn in order, seen
+    through local helpers - inlinable ones are inlined (their arguments are
+    then expressed in fn's names), other local helpers are spliced in and
+    marked foreign (their arguments live in the helper's namespace)."""
+    from .core import inline_view, resolve_local_call
+    base = getattr(fn, "inlined_from", fn)
+    try:
+        view = inline_view(base, keep=tuple(STAGES))
+    except Exception:
+        view = base
+    out = []
+
+    def walk(f, node, foreign, level):
+        for c in _ordered_calls(node.body):
+            nm = (call_name(c) or "").split(".")[-1]
+            if nm in STAGES:
+                out.append((nm, c, foreign))
+                continue
+            h = resolve_local_call(f, c)
+            if h is not None and h is not f and h is not base and level > 0:
+                walk(h, h.node, True, level - 1)
+    walk(base, view.node, False, depth)
     return out
 
 
@@ -907,9 +985,9 @@ def pipeline_composition(repo, col):
     seq_all = _stage_seq(allin)
     seq_steps = []
     for _, _, fn, mainfn in steps:
-        seq_steps += [(nm, c, fn, mainfn) for nm, c in _stage_seq(fn)]
-    names_all = [n for n, _ in seq_all]
-    names_steps = [n for n, _, _, _ in seq_steps]
+        seq_steps += [(nm, c, fn, mainfn, fg) for nm, c, fg in _stage_seq(fn)]
+    names_all = [n for n, _, _ in seq_all]
+    names_steps = [n for n, _, _, _, _ in seq_steps]
     # the RGB split stage: present in both programs, before the chunk writer
     def rgb_before_write(names):
         return "split_rgb_channels" in names and \
@@ -936,13 +1014,18 @@ def pipeline_composition(repo, col):
     # value-affecting parameters
     main_all = repo.func("scripts.volume_to_precomputed_pyramid", "main")
     by_name_steps = {}
-    for nm, c, fn, mainfn in seq_steps:
-        by_name_steps.setdefault(nm, (c, fn, mainfn))
-    for nm, c in seq_all:
+    for nm, c, fn, mainfn, fg in seq_steps:
+        by_name_steps.setdefault(nm, (c, fn, mainfn, fg))
+    for nm, c, fg in seq_all:
         if nm not in VALUE_PARAMS or nm not in by_name_steps:
             continue
         stage_fn = _find_func(repo, nm)
-        c2, fn2, main2 = by_name_steps[nm]
+        c2, fn2, main2, fg2 = by_name_steps[nm]
+        if fg or fg2:
+            col.add(rule + ".param", allin, "%s(...)" % nm, True,
+                    "stage is called from a helper whose arguments are not "
+                    "expressed in the driver's names", undecided=True)
+            continue
         for p in VALUE_PARAMS[nm]:
             ea = _effective(repo, allin, main_all, c, stage_fn, p)
             eb = _effective(repo, fn2, main2, c2, stage_fn, p)
@@ -979,7 +1062,7 @@ def pipeline_composition(repo, col):
                     "programs (all-in-one %s, step-by-step %s)"
                     % (p, nm, ea, eb), undecided=und and not ok)
     # the info a stage works on is the one the previous stage produced
-    txt = norm(allin.node)
+    txt = closure_text(allin)
     okw = "precomputed_io.get_IO_for_new_dataset(info, accessor)" in txt and \
         "compute_dyadic_scales(precomputed_writer, downscaler)" in txt and \
         "nibabel_image_to_precomputed(img, precomputed_writer" in txt
@@ -993,7 +1076,7 @@ def pipeline_composition(repo, col):
 def accessor_options_plumbing(repo, col):
     rule = "E-SIB.options"
     fn = repo.func("accessor", "get_accessor_for_url")
-    txt = norm(fn.node)
+    txt = ftext(fn)
     for opt, dflt in (("flat", "False"), ("gzip", "True"),
                       ("compresslevel", "9")):
         p = "%s = accessor_options.get('%s', %s)" % (opt, opt, dflt)
@@ -1002,7 +1085,7 @@ def accessor_options_plumbing(repo, col):
                 "accessor_options to FileAccessor with default %s"
                 % (opt, dflt), undecided=not ok and opt not in txt)
     ini = repo.func("file_accessor", "FileAccessor.__init__")
-    t = norm(ini.node)
+    t = ftext(ini)
     ok = "if flat: self.chunk_pattern = _CHUNK_PATTERN_FLAT else: " \
         "self.chunk_pattern = _CHUNK_PATTERN_SUBDIR" in t.replace("\n", " ")
     ok = "self.chunk_pattern = _CHUNK_PATTERN_FLAT" in t and \
@@ -1012,7 +1095,7 @@ def accessor_options_plumbing(repo, col):
             undecided=not ok)
     # CLI defaults of the shared options
     ao = repo.func("accessor", "add_argparse_options")
-    at = norm(ao.node)
+    at = ftext(ao)
     for p, why in (("'--no-gzip', '--no-compression', action='store_false', "
                     "dest='gzip'", "--no-gzip does not clear the gzip option"),
                    ("'--compresslevel', type=int, default=9",
